@@ -37,7 +37,7 @@ def record_history(pa, rng, length, max_obj=4, ops_weights=None):
     objs = {}
     events = []
     w = {"new": 2, "add": 14, "add_annotator": 2, "remove": 5, "copy": 2, "copy_flush": 1, "merge_in_place": 2,
-         "merge_new": 1, "plus": 1, "reset_bounds": 2, "drop": 1, "getitem_mutate": 1}
+         "merge_new": 1, "plus": 1, "reset_bounds": 2, "drop": 1, "getitem_mutate": 1, "add_timeline": 1, "add_annotation": 1}
     if ops_weights:
         w.update(ops_weights)
     for _ in range(length):
@@ -71,6 +71,17 @@ def record_history(pa, rng, length, max_obj=4, ops_weights=None):
                 o = rng.choice(live); a = rng.choice(ANNS)
                 e["args"] = [o, a]
                 objs[o].add_annotator(a)
+            elif op in ("add_timeline", "add_annotation"):
+                o = rng.choice(live); a = rng.choice(ANNS)
+                items = []
+                for _ in range(rng.randint(0, 3)):
+                    s, t = rnd_segment(rng)
+                    if t - s < 1e-3:
+                        t = s + 1.25
+                    items.append([s, t, None if op == "add_timeline" else rng.choice([x for x in LABELS if x is not None])])
+                e["args"] = [o, a]
+                e["items"] = [list(x) for x in {tuple(i) for i in items}]
+                add_many(objs[o], op, a, e["items"])
             elif op == "remove":
                 o = rng.choice(live)
                 pool = [(a, u) for a, u in objs[o]]
@@ -131,6 +142,18 @@ def record_history(pa, rng, length, max_obj=4, ops_weights=None):
     return events
 
 
+def add_many(c, op, a, items):
+    """add_timeline / add_annotation through real pyannote objects."""
+    from pyannote.core import Annotation, Segment, Timeline
+    if op == "add_timeline":
+        c.add_timeline(a, Timeline([Segment(s, t) for s, t, _ in items]))
+    else:
+        ann = Annotation()
+        for k, (s, t, lab) in enumerate(items):
+            ann[Segment(s, t), k] = lab
+        c.add_annotation(a, ann)
+
+
 def apply_event(pa, objs, e):
     """Re-execute one raw event on the real objects in `objs` (replay of stored traces)."""
     from pyannote.core import Segment
@@ -144,6 +167,8 @@ def apply_event(pa, objs, e):
             objs[a[0]].add(a[1], Segment(a[2], a[3]), a[4])
         elif op == "add_annotator":
             objs[a[0]].add_annotator(a[1])
+        elif op in ("add_timeline", "add_annotation"):
+            add_many(objs[a[0]], op, a[1], e["items"])
         elif op == "remove":
             objs[a[0]].remove(a[1], Unit(Segment(a[2], a[3]), a[4]))
         elif op == "copy":
